@@ -101,6 +101,21 @@ structure Census where
   /-- every attribute of a function -/
   attr : Nat := 0
 
+/-- count the constructs of both -/
+def Census.add (A B : Census) : Census where
+  bin := fun op => A.bin op + B.bin op
+  ifx := A.ifx + B.ifx
+  interp := A.interp + B.interp
+  cast := A.cast + B.cast
+  inst := A.inst + B.inst
+  cassign := fun op => A.cassign op + B.cassign op
+  cont := A.cont + B.cont
+  localKind := fun k => A.localKind k + B.localKind k
+  typeStmt := A.typeStmt + B.typeStmt
+  tyNode := A.tyNode + B.tyNode
+  generic := A.generic + B.generic
+  attr := A.attr + B.attr
+
 variable (C : Census)
 
 mutual
